@@ -11,7 +11,7 @@ import numpy as np
 from hypothesis import strategies as st
 
 from ..core import require, require_close
-from ..gen.fracnets import Network, lattice_net_spec, seg_net_spec
+from ..gen.fracnets import Network, lattice_frac_points, lattice_net_spec, seg_net_spec
 from ..gen.grids import scratch_file
 from ..gen.mdgrids import build_mdg, frac_points, mdg_spec
 
@@ -19,7 +19,14 @@ ID = "C25"
 RULE = (
     "Hypothesis draws a fracture network on an integer lattice: 2-d lines / 3-d rectangles, axis aligned (0-3 in 2-d, "
     "0-2 in 3-d; X crossings, T abutments, L corners, fractures touching the domain boundary), meshed by "
-    "pp.meshing.cart_grid (random physical dimensions) or pp.meshing.tensor_grid (random non-uniform node coordinates); "
+    "pp.meshing.cart_grid (random physical dimensions) or pp.meshing.tensor_grid (random non-uniform node coordinates, "
+    "origin anywhere), a sixth of these with the whole geometry in another length unit (1e-6, 1e-3, 1e3, 1e6); a third of "
+    "the quick cases go through pp.create_mdg('cartesian' | 'tensor_grid', meshing_args, network) with generated "
+    "arguments: cell_size, cell_size_x/y/z, cell_size plus one override, explicit x_pts/y_pts/z_pts, sizes that divide "
+    "the domain extent, sizes that do not (extent = h (n + delta), |delta| <= 0.4: the documented behaviour is that the "
+    "domain is kept and the number of cells rounded), a size larger than the extent (documented: domain size used), "
+    "bounding boxes with negative / shifted minima - the fractures are placed on the grid lines linspace(min, max, n+1) "
+    "of the domain GIVEN and the oracle refers to that domain (host volume, host bounding box, fracture positions); "
     "in the thorough tier also meshed by gmsh (pp.create_mdg('simplex')) with random cell size, including 2-d "
     "networks of straight fractures in arbitrary directions with forced T/L junctions. The expected intersections and, "
     "for every (fracture, intersection) pair, whether the fracture passes through (two sides) or ENDS there (one "
@@ -29,7 +36,7 @@ RULE = (
     "to exactly one primary face per side; coupled faces coincide with the cell in centre (1e-8*L) and measure "
     "(1e-8), are boundary faces of the split primary grid, the two sides have opposite unit outward normals and "
     "all faces of one mortar side share one outward normal (planar fractures); the primary's fracture_faces tag = "
-    "set of coupled faces; host volume = domain volume (1e-10); nodes and cell centres of fracture / intersection grids "
+    "set of coupled faces; host volume = domain volume (1e-10) and host bounding box = domain box; nodes and cell centres of fracture / intersection grids "
     "lie on their fracture(s) (1e-8*L) and fracture grid measure = fracture measure; each mortar side grid has the "
     "secondary's cell count, cell volumes and centres. "
     "Non-trivial = at least one fracture; distinct = hash of spec."
@@ -40,8 +47,9 @@ LEVEL_TEXT = ("Exploration: on the order of a thousand generated fracture networ
               "thousands including gmsh simplex meshes in the thorough tier; every interface of every produced md-grid is "
               "checked cell by cell against geometry, and the one-sided / two-sided class of each interface is predicted "
               "from the network, not read from the output.")
-LEVEL_NOTE = ("Quick tier explores lattice-aligned networks only (cart_grid / tensor_grid); gmsh networks only in the "
-              "thorough tier. 3-d networks have at most two fractures (no 0-d points in 3-d); three fractures through "
+LEVEL_NOTE = ("Quick tier explores lattice-aligned networks only (cart_grid / tensor_grid, directly and through create_mdg); "
+              "gmsh networks (also on shifted domains) only in the thorough tier. Other length units only for the structured "
+              "meshers. 3-d networks have at most two fractures (no 0-d points in 3-d); three fractures through "
               "one point and overlapping collinear fractures are not generated. Finds violations, does not prove absence.")
 DESIGN_REF = "DESIGN.md section 4, C25"
 ASSUMPTIONS = [
@@ -50,7 +58,8 @@ ASSUMPTIONS = [
     "3-d point contacts between two fractures are not intersections (no grid expected; structured meshers only - "
     "FractureNetwork3d documents point contacts as not handled, so gmsh networks are generated without them)",
 ]
-REQUIRED = {"dim2": 0.2, "dim3": 0.15, "isect-X": 0.08, "isect-T": 0.08, "isect-L": 0.03, "one-sided": 0.1,
+REQUIRED = {"scaled-small": 0.02, "scaled-large": 0.03, "via-create-mdg": 0.1, "cell-size-non-dividing": 0.025,
+            "cell-size-dividing": 0.02, "domain-shifted": 0.05, "mdg-cartesian": 0.03, "mdg-tensor_grid": 0.03, "dim2": 0.2, "dim3": 0.15, "isect-X": 0.08, "isect-T": 0.08, "isect-L": 0.03, "one-sided": 0.1,
             "touch-boundary": 0.2, "mesher-cart": 0.12, "mesher-tensor": 0.12, "fracs0": 0.01}
 
 _f = lambda lo, hi: st.floats(lo, hi, allow_nan=False, allow_infinity=False, width=64)  # noqa: E731
@@ -60,8 +69,10 @@ _f = lambda lo, hi: st.floats(lo, hi, allow_nan=False, allow_infinity=False, wid
 @st.composite
 def _spec(draw, tier):
     big = tier != "quick"
-    meshers = ["cart", "cart", "tensor", "tensor"] + (["gmsh", "gmsh", "gmsh-seg", "gmsh-seg"] if big else [])
+    meshers = ["cart", "tensor", "mdg", "cart", "tensor", "mdg"] + (["gmsh", "gmsh", "gmsh-seg", "gmsh-seg"] if big else [])
     mesher = draw(st.sampled_from(meshers))
+    if mesher == "mdg":
+        return draw(_spec_create_mdg(big))
     if mesher == "gmsh-seg":
         net = draw(seg_net_spec(max_n=4, max_fracs=3))
         return {"mesher": "gmsh", "net": net, "h": draw(st.sampled_from([0.5, 0.35, 0.25]))}
@@ -71,6 +82,11 @@ def _spec(draw, tier):
         net = draw(lattice_net_spec(dims=(2, 3), max_n=4, max_n3=3) if forced else
                    mdg_spec(dims=(2, 3), max_n=4, max_n3=3, max_fracs=3, min_fracs=min_fracs, phys=False))
         net["phys"] = [draw(_f(0.5, 3.0)) for _ in range(net["dim"])]
+        if draw(st.booleans()):
+            # domain not starting at the origin: uniform node coordinates with shifted minima
+            org = [draw(st.sampled_from([-1.5, -0.25, 0.75, 2.0])) for _ in range(net["dim"])]
+            net["coords"] = [[float(x) for x in np.linspace(o, o + L_, k + 1)] for o, L_, k in zip(org, net["phys"], net["n"])]
+            net["phys"] = None
         if net["dim"] == 3:
             # FractureNetwork3d documents that point contacts between fractures are not handled
             # ("We do not include point contacts here"): drop a fracture that would create one.
@@ -96,11 +112,93 @@ def _spec(draw, tier):
                 c.append(c[-1] + s_)
             coords.append(c)
         net["coords"] = coords
-    return {"mesher": mesher, "net": net}
+    # length unit: a sixth of the structured cases have the whole geometry multiplied by a unit factor
+    unit = draw(st.sampled_from([1.0, 1.0, 1.0, 1e-6, 1e-3, 1.0, 1e3, 1.0, 1.0, 1e6, 1.0, 1.0]))
+    if unit != 1.0:
+        if net.get("coords"):
+            net["coords"] = [[x * unit for x in c] for c in net["coords"]]
+        else:
+            net["phys"] = [x * unit for x in (net["phys"] or [float(k) for k in net["n"]])]
+    return {"mesher": mesher, "net": net, "unit": unit}
+
+
+@st.composite
+def _spec_create_mdg(draw, big):
+    """pp.create_mdg("cartesian" | "tensor_grid", meshing_args, network) with generated meshing arguments.  The lattice
+    network fixes the number of cells n_i per direction; the domain box [min_i, min_i + E_i] and the cell sizes h_i are
+    drawn such that round(E_i / h_i) = n_i (E_i = h_i (n_i + delta_i), |delta_i| <= 0.4: delta = 0 is a dividing size;
+    n_i = 1 also with h_i > E_i, the documented 'cell size greater than the domain' branch).  The code keeps the domain
+    and rounds the number of cells (phys_dims "is inferred from domain"; tensor: linspace(min, max, n + 1)), so the
+    expected nodes are linspace(min_i, max_i, n_i + 1) and the fractures are placed on those grid lines."""
+    gt = draw(st.sampled_from(["cartesian", "tensor_grid"]))
+    net = draw(lattice_net_spec(dims=(2, 2, 3), max_n=5 if big else 4, max_n3=4 if big else 3, min_n=1))
+    dim = net["dim"]
+    mode = draw(st.sampled_from(["iso", "aniso", "mixed", "pts"] if gt == "tensor_grid" else ["iso", "aniso", "mixed"]))
+    h0 = draw(st.sampled_from([0.1, 0.3, 0.35, 0.5, 0.8, 1.0, 1.7]))
+    divides = draw(st.sampled_from([True, False, False]))
+    # cartesian grids start at the origin by construction of CartGrid; shifted domains are part of the property
+    shifted = draw(st.sampled_from([False, True, True])) if gt == "tensor_grid" else draw(st.sampled_from([False, False, True]))
+    hs, box = [], []
+    for i in range(dim):
+        h = h0 if mode in ("iso", "pts") or (mode == "mixed" and i > 0) else h0 * draw(st.sampled_from([0.5, 0.7, 1.3, 2.0]))
+        if net["n"][i] == 1 and draw(st.booleans()):
+            ext = h / draw(st.sampled_from([1.25, 2.0, 3.0]))       # cell size larger than the domain
+        else:
+            delta = 0.0 if divides else draw(st.sampled_from([-0.4, -0.25, -0.1, 0.1, 0.3, 0.4]))
+            ext = h * (net["n"][i] + delta)
+        lo = draw(st.sampled_from([-1.5, -0.25, 0.75, 2.0])) if shifted else 0.0
+        hs.append(float(h))
+        box.append([float(lo), float(lo + ext)])
+    keys = ["cell_size_x", "cell_size_y", "cell_size_z"]
+    if mode in ("iso", "pts"):
+        args = {"cell_size": hs[0]}
+    elif mode == "aniso" and gt == "cartesian":
+        args = {keys[i]: hs[i] for i in range(dim)}
+    elif gt == "cartesian":   # mixed: cell_size plus an override in x
+        args = {"cell_size": hs[-1], "cell_size_x": hs[0]}
+    else:
+        # tensor_grid knows no per-direction sizes; directions without explicit points follow cell_size
+        # (mixed: direction 0 gets points, the others use the base size; aniso: all directions get points)
+        args = {"cell_size": hs[-1]}
+    coords = [[float(x) for x in np.linspace(b[0], b[1], k + 1)] for b, k in zip(box, net["n"])]
+    if gt == "tensor_grid" and mode != "iso":
+        # explicit points (non-uniform, end points on the boundary as documented) in one or all directions
+        which = list(range(dim)) if mode in ("pts", "aniso") else [0]
+        for i in which:
+            k = net["n"][i]
+            w = [draw(_f(0.3, 2.0)) for _ in range(k)]
+            c = np.concatenate(([0.0], np.cumsum(w))) / sum(w)
+            pts = [float(box[i][0] + (box[i][1] - box[i][0]) * t) for t in c]
+            pts[0], pts[-1] = box[i][0], box[i][1]
+            coords[i] = pts
+            args[["x_pts", "y_pts", "z_pts"][i]] = pts
+        if len(which) == dim and draw(st.booleans()):
+            args.pop("cell_size", None)
+        elif mode == "aniso":
+            # remaining directions follow cell_size: must be consistent with n_i -> only when all directions have points
+            pass
+    net["coords"] = coords
+    net["phys"] = None
+    return {"mesher": "mdg", "gt": gt, "net": net, "box": box, "args": args}
 
 
 def strategy(tier):
     return _spec(tier)
+
+
+def _known_cartesian_shifted(spec):
+    """create_mdg("cartesian") for a domain whose bounding box does not start at the origin."""
+    return (spec.get("mesher") == "mdg" and spec.get("gt") == "cartesian"
+            and any(b[0] != 0.0 for b in spec["box"]))
+
+
+def _known_3d_small_units(spec):
+    """Structured 3-d meshing of a geometry given in small length units."""
+    return (spec.get("mesher") in ("cart", "tensor") and spec["net"]["dim"] == 3 and float(spec.get("unit", 1.0)) < 1.0)
+
+
+KNOWN = {"C25-create-mdg-cartesian-ignores-domain-minimum": _known_cartesian_shifted,
+         "C25-structured-3d-absolute-tolerances": _known_3d_small_units}
 
 
 def warmup():
@@ -121,22 +219,33 @@ def build(spec):
     net = Network(net_s)
     if spec["mesher"] == "cart":
         return build_mdg(net_s), net
+    if spec["mesher"] == "mdg":
+        dim = net.dim
+        box = {}
+        for ax_name, (lo, hi) in zip("xyz", spec["box"]):
+            box[ax_name + "min"], box[ax_name + "max"] = lo, hi
+        pts = lattice_frac_points(net_s)
+        fr = [pp.LineFracture(p) for p in pts] if dim == 2 else [pp.PlaneFracture(p) for p in pts]
+        network = pp.create_fracture_network(fr if fr else None, pp.Domain(box))
+        args = {k: (np.array(v, dtype=float) if k.endswith("_pts") else v) for k, v in spec["args"].items()}
+        return pp.create_mdg(spec["gt"], args, network), net
     if spec["mesher"] == "tensor":
         pts = _frac_points_coords(net_s, net)
         cs = [np.array(c, dtype=float) for c in net_s["coords"]]
         return pp.meshing.tensor_grid(pts, *cs), net
     # gmsh
     dim = net.dim
-    box = {"xmin": 0.0, "xmax": net.phys[0], "ymin": 0.0, "ymax": net.phys[1]}
+    o = net.origin
+    box = {"xmin": o[0], "xmax": o[0] + net.phys[0], "ymin": o[1], "ymax": o[1] + net.phys[1]}
     if dim == 3:
-        box.update(zmin=0.0, zmax=net.phys[2])
+        box.update(zmin=o[2], zmax=o[2] + net.phys[2])
     domain = pp.Domain(box)
     if "segs" in net_s:
         fr = [pp.LineFracture(np.array([f.p[:2], f.q[:2]]).T) for f in net.fracs]
     elif dim == 2:
-        fr = [pp.LineFracture(p) for p in frac_points(net_s)]
+        fr = [pp.LineFracture(p) for p in lattice_frac_points(net_s)]
     else:
-        fr = [pp.PlaneFracture(p) for p in frac_points(net_s)]
+        fr = [pp.PlaneFracture(p) for p in lattice_frac_points(net_s)]
     network = pp.create_fracture_network(fr if fr else None, domain)
     h = spec["h"] * min(net.phys)
     mdg = pp.create_mdg("simplex", {"cell_size": h}, network, file_name=scratch_file("c25_mesh.msh"))
@@ -193,6 +302,32 @@ def check(spec):
     labels = [f"dim{Nd}", "mesher-" + spec["mesher"], f"fracs{nfr}"] + sorted(set(net.labels))
     if "segs" in spec["net"]:
         labels.append("gmsh-oblique")
+    if any(abs(x) > 0 for x in net.origin):
+        labels.append("domain-shifted")
+    u = float(spec.get("unit", 1.0))
+    if u != 1.0:
+        labels.append("scaled-small" if u < 1 else "scaled-large")
+    if spec["mesher"] == "mdg":
+        labels += ["via-create-mdg", "mdg-" + spec["gt"]]
+        a = spec["args"]
+        for i, (lo, hi) in enumerate(spec["box"]):
+            h = a.get(["cell_size_x", "cell_size_y", "cell_size_z"][i], a.get("cell_size")) if spec["gt"] == "cartesian" else a.get("cell_size")
+            if ["x_pts", "y_pts", "z_pts"][i] in a:
+                labels.append("explicit-pts")
+                continue
+            if h is None:
+                continue
+            q = (hi - lo) / h
+            if h > hi - lo:
+                labels.append("cell-size-larger")
+            elif abs(q - round(q)) > 1e-9:
+                labels.append("cell-size-non-dividing")
+            else:
+                labels.append("cell-size-dividing")
+        if any(k in a for k in ("cell_size_x", "cell_size_y", "cell_size_z")):
+            labels.append("cell-size-per-direction")
+    elif spec["mesher"] == "gmsh":
+        labels.append("via-create-mdg")
 
     # ---- subdomains: one host, one grid per fracture, one per expected intersection
     hosts = mdg.subdomains(dim=Nd)
@@ -201,6 +336,12 @@ def check(spec):
     require(bool(np.all(host.cell_volumes > 0)), "host-volume-sign", "non-positive host cell volume")
     require_close(host.cell_volumes.sum(), net.domain_measure, "host-volume", rtol=1e-10, atol=0.0,
                   what="sum of host cell volumes vs domain measure")
+    lo_dom = np.array(net.origin)
+    hi_dom = lo_dom + np.array(net.phys)
+    require_close(host.nodes[:Nd].min(axis=1), lo_dom, "host-bounding-box", rtol=0.0, atol=tol,
+                  what="lower corner of the host grid vs lower corner of the domain given")
+    require_close(host.nodes[:Nd].max(axis=1), hi_dom, "host-bounding-box", rtol=0.0, atol=tol,
+                  what="upper corner of the host grid vs upper corner of the domain given")
 
     frac_grids = mdg.subdomains(dim=Nd - 1)
     require(len(frac_grids) == nfr, "fracture-grid-count", f"{len(frac_grids)} grids of dim {Nd - 1} for {nfr} fractures")
